@@ -32,7 +32,7 @@ CONSTANTS Versions,      \* ASGI WebSocket spec versions as integers 20..24 (2.0
 
 VARIABLES ver, maxq,     \* configuration fixed at connection time
           pc,            \* "start" | "resp" (responder script running) | "done"
-          w,             \* WebSocket object state [st, why, cc, pend, flt]
+          w,             \* WebSocket object state [st, why, cc, pend, flt, seen]
           gone, gcode,   \* the client's disconnect event has arrived at the server (+ its code)
           blk,           \* name of the receive call waiting for a client event, or "none"
           mon,           \* server-side legality automaton over the events sent so far
@@ -58,10 +58,14 @@ CloseEv(code, rs, ok) ==
     IN  E("close", c, r, "", 0, 0, 0, ok)
 
 (* ---- what the framework knows -------------------------------------------------------------- *)
-PumpHoldsOneInHand(x) == maxq > 0 /\ x.st = "accepted" /\ gone /\ Len(x.pend) <= maxq + 1
-Seen(x)       == PumpHoldsOneInHand(x)                \* the pump has met the disconnect event
+(* The pump moves only while the loop is drained, i.e. between two actions: what it has seen is
+   a snapshot (x.seen) refreshed by Settle at the end of every action, not something that changes
+   in the middle of a call. *)
+PumpHoldsOneInHand(x, g) == maxq > 0 /\ x.st = "accepted" /\ g /\ Len(x.pend) <= maxq + 1
+Settle(x, g)  == [x EXCEPT !.seen = x.seen \/ PumpHoldsOneInHand(x, g)]
+Seen(x)       == x.seen /\ x.st = "accepted"        \* the pump has met the disconnect event
 ClosedView(x) == x.st = "closed" \/ Seen(x)          \* WebSocket.closed
-Known(x)      == (x.st = "closed" /\ x.why = "client") \/ Seen(x)
+Known(x)      == (x.st = "closed" /\ x.why \in {"client", "seen"}) \/ Seen(x)
 DiscCode      == IF gcode = 0 THEN 1000 ELSE gcode
 View(x)       == IF Seen(x) THEN "seen" ELSE x.st
 
@@ -89,17 +93,19 @@ FailedCloseLeavesStateOpen(x, a, code, rs) == R([x EXCEPT !.flt = a.flt], "serve
 DoClose(x, code, rs, f) ==
     IF Invalid(code) THEN R(x, "value", 0, <<>>, "P")                   \* in every state, and nothing else changes
     ELSE IF x.st = "closed" THEN R(x, "ok", 0, <<>>, "P")
-    ELSE IF Seen(x) THEN R([x EXCEPT !.st = "closed", !.why = "client", !.cc = DiscCode], "ok", 0, <<>>, "P")
+    ELSE IF Seen(x) THEN R([x EXCEPT !.st = "closed", !.why = "seen", !.cc = DiscCode], "ok", 0, <<>>, "P")
     ELSE LET a == Att(x, f) IN
          IF a.ok THEN R([x EXCEPT !.st = "closed", !.why = "server", !.cc = IF code = 0 THEN 1000 ELSE code],
                         "ok", 0, <<CloseEv(code, rs, TRUE)>>, "P")
          ELSE FailedCloseLeavesStateOpen(x, a, code, rs)
 
-TypeCheckBeforeLostCheck(x) == R(x, "type", 0, <<>>, IF Seen(x) THEN "D" ELSE "P")
+(* why = "seen": closed by a close() that found the client already gone (nothing was sent) *)
+TypeCheckBeforeLostCheck(x) == R(x, "type", 0, <<>>, IF Seen(x) \/ x.st = "closed" THEN "D" ELSE "P")
 
 DoSend(x, op, k, v, f) ==
     IF x.st = "handshake" THEN R(x, "ona", 0, <<>>, "P")
-    ELSE IF x.st = "closed" THEN R(x, "wsd", x.cc, <<>>, "P")
+    ELSE IF x.st = "closed" /\ x.why = "seen" /\ v = 0 THEN TypeCheckBeforeLostCheck(x)
+    ELSE IF x.st = "closed" THEN R(IF x.why = "seen" THEN [x EXCEPT !.why = "client"] ELSE x, "wsd", x.cc, <<>>, "P")
     ELSE IF v = 0 THEN TypeCheckBeforeLostCheck(x)
     ELSE IF Seen(x) THEN R([x EXCEPT !.st = "closed", !.why = "client", !.cc = DiscCode], "wsd", DiscCode, <<>>, "P")
     ELSE LET a == Att(x, f) IN
@@ -160,7 +166,7 @@ L0 == [a |-> "init", op |-> "", sp |-> 0, hd |-> 0, code |-> 0, rs |-> 0, k |-> 
        f |-> "none", x |-> "", mw |-> "none", route |-> "ok", hk |-> "default", ec |-> 1011, first |-> "connect",
        r |-> "none", rv |-> 0, evs |-> <<>>, cl |-> "P", esc |-> FALSE, pre |-> "handshake", fin |-> FALSE]
 
-W0 == [st |-> "handshake", why |-> "none", cc |-> 0, pend |-> <<>>, flt |-> "clear"]
+W0 == [st |-> "handshake", why |-> "none", cc |-> 0, pend |-> <<>>, flt |-> "clear", seen |-> FALSE]
 
 Init == /\ ver \in Versions /\ maxq \in QueueSizes
         /\ pc = "start" /\ w = W0 /\ gone = FALSE /\ gcode = 0 /\ blk = "none" /\ mon = "connecting"
@@ -189,7 +195,7 @@ StartGuard(first, mw, route, ec, f) == pc = "start" /\ FaultOK(f, StartResult(fi
 Start(first, mw, route, ec, f) ==
     /\ StartGuard(first, mw, route, ec, f)
     /\ LET s == StartResult(first, mw, route, ec, f) IN
-         /\ w' = s.h.w
+         /\ w' = Settle(s.h.w, gone)
          /\ pc' = IF s.run THEN "resp" ELSE "done"
          /\ mon' = IF first # "connect" THEN (IF f = "none" THEN "closed" ELSE mon) ELSE MonFold(mon, s.h.evs, FALSE)
          /\ last' = [L0 EXCEPT !.a = "start", !.first = first, !.mw = mw, !.route = route, !.ec = ec, !.f = f,
@@ -215,7 +221,7 @@ Op(op, sp, hd, code, rs, k, v, prop, hk, ec, f) ==
     /\ LET o == OpResult(op, sp, hd, code, rs, k, v, f)
            g == IF prop THEN Handle(o.w, ExcOf(o.r), 0, hk, ec, IF o.evs = <<>> THEN f ELSE "none") ELSE H(o.w, <<>>, FALSE)
            evs == o.evs \o g.evs
-       IN /\ w' = g.w
+       IN /\ w' = Settle(g.w, gone)
           /\ pc' = IF prop THEN "done" ELSE "resp"
           /\ blk' = IF o.r = "blocked" THEN op ELSE "none"
           /\ mon' = MonFold(mon, evs, Known(w))
@@ -231,7 +237,7 @@ RaiseGuard(x, hk, ec, f) == pc = "resp" /\ blk = "none"
 Raise(x, hk, ec, f) ==
     /\ RaiseGuard(x, hk, ec, f)
     /\ LET g == Handle(w, IF x = "boom" THEN "boom" ELSE "http", IF x = "http" THEN 400 ELSE 204, hk, ec, f) IN
-         /\ w' = g.w /\ pc' = "done" /\ mon' = MonFold(mon, g.evs, Known(w))
+         /\ w' = Settle(g.w, gone) /\ pc' = "done" /\ mon' = MonFold(mon, g.evs, Known(w))
          /\ last' = [L0 EXCEPT !.a = "raise", !.x = x, !.hk = hk, !.ec = ec, !.f = f, !.r = "ok", !.evs = g.evs,
                                !.esc = g.esc, !.pre = View(w), !.fin = TRUE]
     /\ UNCHANGED <<ver, maxq, gone, gcode, blk, got>>
@@ -246,7 +252,7 @@ ReturnGuard(ec, f) == pc = "resp" /\ blk = "none" /\ FaultOK(f, ReturnResult(ec,
 Return(ec, f) ==
     /\ ReturnGuard(ec, f)
     /\ LET g == ReturnResult(ec, f) IN
-         /\ w' = g.w /\ pc' = "done" /\ mon' = MonFold(mon, g.evs, Known(w))
+         /\ w' = Settle(g.w, gone) /\ pc' = "done" /\ mon' = MonFold(mon, g.evs, Known(w))
          /\ last' = [L0 EXCEPT !.a = "return", !.ec = ec, !.f = f, !.r = "ok", !.evs = g.evs, !.esc = g.esc,
                                !.pre = View(w), !.fin = TRUE]
     /\ UNCHANGED <<ver, maxq, gone, gcode, blk, got>>
@@ -264,11 +270,11 @@ Arrive(k, v, prop, hk, ec) ==
            x == [w EXCEPT !.pend = Append(w.pend, m)]
        IN /\ gone' = (k = "disc") /\ gcode' = IF k = "disc" THEN v ELSE gcode
           /\ IF blk = "none"
-             THEN /\ w' = x /\ pc' = pc /\ mon' = mon /\ got' = got
+             THEN /\ w' = Settle(x, k = "disc") /\ pc' = pc /\ mon' = mon /\ got' = got
                   /\ last' = [L0 EXCEPT !.a = "arrive", !.k = k, !.v = v, !.pre = View(w)]
              ELSE LET o == Deliver(x, blk, m)
                       g == IF prop THEN Handle(o.w, ExcOf(o.r), 0, hk, ec, "none") ELSE H(o.w, <<>>, FALSE)
-                  IN /\ w' = g.w /\ pc' = IF prop THEN "done" ELSE "resp"
+                  IN /\ w' = Settle(g.w, k = "disc") /\ pc' = IF prop THEN "done" ELSE "resp"
                      /\ mon' = MonFold(mon, g.evs, k = "disc")
                      /\ got' = Append(got, m)
                      /\ last' = [L0 EXCEPT !.a = "arrive", !.k = k, !.v = v, !.op = blk, !.prop = prop, !.hk = hk, !.ec = ec,
@@ -316,7 +322,8 @@ StateAgrees == /\ (w.st = "accepted" => mon = "open")
 WrongStateErrorsAreDocumented ==
     last.a = "op" =>
       /\ (last.op \in SendOps \cup RecvOps /\ last.pre = "handshake" => last.r = "ona")
-      /\ (last.op \in SendOps \cup RecvOps /\ last.pre = "closed" => last.r = "wsd")
+      /\ (last.op \in SendOps \cup RecvOps /\ last.pre = "closed" => last.r \in {"wsd", "type"})
+      /\ (last.r = "type" => last.op \in {"send_text", "send_data"} /\ last.v = 0)
       /\ (last.op = "accept" /\ last.pre # "handshake" => last.r = "ona")
       /\ (last.op = "close" /\ Invalid(last.code) => last.r = "value" /\ (last.prop \/ last.evs = <<>>))
       /\ (last.op = "close" /\ ~Invalid(last.code) /\ last.pre \in {"closed", "seen"} => last.r = "ok" /\ last.evs = <<>>)
